@@ -83,8 +83,10 @@ def x86_transfer(ev, variant):
             src_expr = e.args[0]
             lo, hi = guards.interval_of(src_expr, variant.decisions, signed=True)
             if not guards.within((lo, hi), -(1 << (w - 1)), (1 << (w - 1)) - 1):
-                raise RangeProblem("rel%d displacement %s is only known to lie in [%s, %s] on this path, not in the signed %d-bit range: "
-                                   "the truncated immediate may wrap" % (w, fmt(src_expr, 4), lo, hi, w), src_expr, (lo, hi))
+                rp = RangeProblem("rel%d displacement %s is only known to lie in [%s, %s] on this path, not in the signed %d-bit range: "
+                                  "the truncated immediate may wrap" % (w, fmt(src_expr, 4), lo, hi, w), src_expr, (lo, hi))
+                rp.sim = sim
+                raise rp
             disp = src_expr
         else:
             raise isa.Undecodable("rel%d immediate is not the low bits of one 64-bit value: %s" % (w, fmt(e, 4)))
@@ -98,6 +100,7 @@ class RangeProblem(Exception):
         Exception.__init__(self, msg)
         self.expr = expr
         self.iv = iv
+        self.sim = None
 
 
 def dest_equals(dest, target):
@@ -265,8 +268,10 @@ def a64_branch_dest(ev, variant, pc, alloc_bound=None):
             X = src
             lo, hi = guards.interval_of(X, variant.decisions, signed=True)
             if not guards.within((lo, hi), -(1 << 25), (1 << 25) - 1):
-                raise RangeProblem("B imm26 is the low 26 bits of %s, which on this path is only known to lie in [%s, %s], not in "
-                                   "[-2^25, 2^25-1]: an out-of-range displacement would wrap" % (fmt(X, 4), lo, hi), X, (lo, hi))
+                rp = RangeProblem("B imm26 is the low 26 bits of %s, which on this path is only known to lie in [%s, %s], not in "
+                                  "[-2^25, 2^25-1]: an out-of-range displacement would wrap" % (fmt(X, 4), lo, hi), X, (lo, hi))
+                rp.sim = sim
+                raise rp
             D = None
             if X.op == "sdiv" and X.args[1].is_const() and X.args[1].val == 4:
                 D = X.args[0]
@@ -280,8 +285,10 @@ def a64_branch_dest(ev, variant, pc, alloc_bound=None):
             Y = src
             lo, hi = guards.interval_of(Y, variant.decisions, signed=True)
             if not guards.within((lo, hi), -(1 << 27), (1 << 27) - 1):
-                raise RangeProblem("B imm26 is bits 2..27 of %s, which on this path is only known to lie in [%s, %s], not in "
-                                   "[-2^27, 2^27)" % (fmt(Y, 4), lo, hi), Y, (lo, hi))
+                rp = RangeProblem("B imm26 is bits 2..27 of %s, which on this path is only known to lie in [%s, %s], not in "
+                                  "[-2^27, 2^27)" % (fmt(Y, 4), lo, hi), Y, (lo, hi))
+                rp.sim = sim
+                raise rp
             notes.append("assumes (trampoline - function) is a multiple of 4 (A64 entries are 4-byte aligned, mappings page aligned)")
             return sim, ("expr", binop("add", binop("add", pc.e, const(t["off"], 64), 64), narrow(Y, 64), 64)), notes
         raise isa.Undecodable("imm26 of B starts at bit %d of %s" % (k, fmt(src, 4)))
